@@ -27,17 +27,28 @@ fi
 (cd "$WT" && go test -vet=off -count=1 -run "^($TESTS)\$" "$PKG" >"$OUT/demo_after.log" 2>&1); R2=$?
 echo "demo with patch: exit $R2 (want non-zero)"; grep -m3 -E '^\s+.*_test.go:[0-9]+:|^panic' "$OUT/demo_after.log" | cut -c1-300
 rm -f "$WT/$PLACE"
+if [ -z "${SKIP_SUITE:-}" ]; then
 (cd "$WT" && go test -json -vet=off -count=1 -timeout 25m ./... > "$OUT/suite.json" 2>/dev/null)
-python3 - "$OUT/suite.json" <<'PY'
-import json,sys
+python3 - "$OUT/suite.json" "$WT" <<'PY'
+import json,sys,subprocess,re
 b=json.load(open('/root/.vp/BASELINE.json')); want=set(b['stable_pass']); got=set()
 for l in open(sys.argv[1]):
     try: e=json.loads(l)
     except Exception: continue
     if e.get('Action')=='pass' and e.get('Test'): got.add(e['Package']+'::'+e['Test'])
 m=sorted(want-got)
-print('suite with patch: stable_pass',len(want),'missing',len(m), m[:8])
+still=[]
+# re-run missing top-level tests in isolation (load-induced flakes)
+tops=sorted({(x.split('::')[0], x.split('::')[1].split('/')[0]) for x in m})
+for pkg,t in tops:
+    ok=False
+    for _ in range(2):
+        r=subprocess.run(['go','test','-vet=off','-count=1','-run','^'+re.escape(t)+'$',pkg],cwd=sys.argv[2],capture_output=True,text=True)
+        if r.returncode==0: ok=True; break
+    if not ok: still.append(pkg+'::'+t)
+print('suite with patch: stable_pass',len(want),'missing first run',len(m),'still failing when re-run alone',still)
 PY
+fi
 export GOSUMDB=off GOTOOLCHAIN=local PATH=/opt/veriftools/go1.26.8/bin:$PATH; unset GOWORK
 cp /verif/known_findings.json "$OUT/"
 for P in $PROPS; do
